@@ -212,6 +212,19 @@ func init() {
 			Old: includeClosure, New: includeValue,
 			More:   []Edit{{File: sprig, Old: b64Anchor, New: includerHead + includerNoTest + includerTail + b64Anchor}},
 			Expect: []string{"C19.R5@(*internal/transform.includer).include#template-reentry"}},
+		// the depth guard extracted into a helper with early returns (corpus J7-3): merged back by the
+		// normaliser, its returns meet in one block and only `err != nil` separates them again
+		Mutant{Prop: "C19", Name: "r5-benign-include-guard-in-early-return-helper", File: sprig, Benign: true,
+			Old: "\t\tvar buf strings.Builder\n\t\tif v, ok := includedNames[name]; ok {\n\t\t\tif v > recursionDepth {\n\t\t\t\treturn \"\", fmt.Errorf(\"including template with name %s: %w\", name, ErrExceededIncludeRecursion)\n\t\t\t}\n\t\t\tincludedNames[name]++\n\t\t} else {\n\t\t\tincludedNames[name] = 1\n\t\t}\n",
+			New: "\t\tif err := enterInclude(includedNames, name); err != nil {\n\t\t\treturn \"\", err\n\t\t}\n\t\tvar buf strings.Builder\n",
+			More: []Edit{{File: sprig, Old: b64Anchor, New: "func enterInclude(depths map[string]int, name string) error {\n\tdepth, included := depths[name]\n\tif !included {\n\t\tdepths[name] = 1\n\t\treturn nil\n\t}\n" +
+				"\tif depth > recursionDepth {\n\t\treturn fmt.Errorf(\"including template with name %s: %w\", name, ErrExceededIncludeRecursion)\n\t}\n\tdepths[name]++\n\treturn nil\n}\n\n" + b64Anchor}}},
+		Mutant{Prop: "C19", Name: "r5-include-guard-helper-lets-the-bound-pass", File: sprig,
+			Old: "\t\tvar buf strings.Builder\n\t\tif v, ok := includedNames[name]; ok {\n\t\t\tif v > recursionDepth {\n\t\t\t\treturn \"\", fmt.Errorf(\"including template with name %s: %w\", name, ErrExceededIncludeRecursion)\n\t\t\t}\n\t\t\tincludedNames[name]++\n\t\t} else {\n\t\t\tincludedNames[name] = 1\n\t\t}\n",
+			New: "\t\tif err := enterInclude(includedNames, name); err != nil {\n\t\t\treturn \"\", err\n\t\t}\n\t\tvar buf strings.Builder\n",
+			More: []Edit{{File: sprig, Old: b64Anchor, New: "func enterInclude(depths map[string]int, name string) error {\n\tdepth, included := depths[name]\n\tif !included {\n\t\tdepths[name] = 1\n\t\treturn nil\n\t}\n" +
+				"\tif depth > recursionDepth {\n\t\treturn nil\n\t}\n\tdepths[name]++\n\treturn nil\n}\n\n" + b64Anchor}},
+			Expect: []string{"C19.R5@internal/transform.SprigFuncs$1#template-reentry"}},
 		Mutant{Prop: "C19", Name: "r1-benign-novalue-workaround-merged-into-caller", File: rtmpl, Benign: true,
 			Why: "workaroundnovalue no longer exists; its two triaged assertions now sit in templateContext",
 			Old: novalueCall, New: "",
